@@ -5,6 +5,7 @@ import itertools
 import os
 
 import hypothesis
+import hypothesis.errors
 from hypothesis import HealthCheck, Phase, settings
 from hypothesis import strategies as st
 from hypothesis.stateful import RuleBasedStateMachine, invariant, precondition, rule, run_state_machine_as_test
@@ -33,8 +34,9 @@ ASSUMPTIONS = [
     "watched blocks are quarantined (never really released), so addresses are not recycled inside a history",
 ]
 
-KINDS = ["sparse", "dense", "scalar", "empty", "empty_ds"]
-IN_KIND = {"sparse": "sparse", "dense": "dense", "scalar": "scalar", "empty": "sparse", "empty_ds": "sparse"}
+KINDS = ["sparse", "dense", "scalar", "empty", "empty_ds", "direct", "direct_dense"]
+IN_KIND = {"sparse": "sparse", "dense": "dense", "scalar": "scalar", "empty": "sparse", "empty_ds": "sparse",
+           "direct": "sparse", "direct_dense": "dense"}
 
 
 class ChildDied(Exception):
@@ -227,7 +229,7 @@ def run_history(steps, worker):
 
 
 # --------------------------------------------------------------------------- exhaustive
-REDUCED = [["eval", 0, -1], ["eval", 2, 0], ["eval", 3, 1000], ["alias", 1000], ["cffi", 1000], ["read", 0],
+REDUCED = [["eval", 0, -1], ["eval", 5, 0], ["eval", 3, 1000], ["alias", 1000], ["cffi", 1000], ["read", 0],
            ["del", 0], ["del", 1000], ["gc"], ["pickle", 1000]]
 
 
@@ -270,12 +272,12 @@ def machine_class(worker, stats):
                 except Exception:  # noqa: BLE001
                     worker.close()
 
-        @rule(kind=st.integers(0, 4))
+        @rule(kind=st.integers(0, 6))
         def evaluate_fresh(self, kind):
             self.do(["eval", kind, -1])
 
         @precondition(lambda self: self.h.tensors())
-        @rule(kind=st.integers(0, 4), src=st.integers(0, 50))
+        @rule(kind=st.integers(0, 6), src=st.integers(0, 50))
         def evaluate_from(self, kind, src):
             self.do(["eval", kind, src])
 
@@ -332,12 +334,17 @@ def stateful_task(task):
     w = make_worker()
     try:
         cls = machine_class(w, stats)
-        run_state_machine_as_test(
-            hypothesis.seed(seed * 4001 + shard)(cls),
-            settings=settings(max_examples=n, stateful_step_count=30, deadline=None, database=None,
-                              phases=[Phase.generate], suppress_health_check=list(HealthCheck),
-                              report_multiple_bugs=False),
-        )
+        try:
+            run_state_machine_as_test(
+                hypothesis.seed(seed * 4001 + shard)(cls),
+                settings=settings(max_examples=n, stateful_step_count=30, deadline=None, database=None,
+                                  phases=[Phase.generate], suppress_health_check=list(HealthCheck),
+                                  report_multiple_bugs=False),
+            )
+        except hypothesis.errors.HypothesisException as e:
+            # on a tree that corrupts memory the child's behaviour is not a function of the drawn steps any more and
+            # Hypothesis notices ("flaky"); the failures recorded so far stand, generation just stops early
+            stats.counters["stateful_generation_stopped_early:" + type(e).__name__] += 1
     finally:
         w.close()
     return stats
